@@ -29,7 +29,119 @@ func fn(name string, params []string, body ...gen.Stmt) *gen.FuncLit {
 	return f
 }
 
+func cutPieces(r *mon.Rand, stmts []gen.Stmt, hostFirst bool) []piece {
+	var pieces []piece
+	start := 0
+	if hostFirst {
+		pieces = append(pieces, piece{Host: true, Stmts: stmts[:1]})
+		start = 1
+	}
+	dens := r.Range(2, 5)
+	cur := []gen.Stmt{stmts[start]}
+	for _, s := range stmts[start+1:] {
+		if r.Chance(dens, 5) {
+			pieces = append(pieces, piece{Stmts: cur})
+			cur = nil
+		}
+		cur = append(cur, s)
+	}
+	return append(pieces, piece{Stmts: cur})
+}
+
+func assign(name, op string, x gen.Expr) gen.Stmt {
+	return &gen.Assign{Target: id(name), Op: op, X: x}
+}
+func decl(name string, x gen.Expr) gen.Stmt { return &gen.VarDecl{Kind: ":=", Name: name, X: x} }
+func es(x gen.Expr) gen.Stmt                { return &gen.ExprStmt{X: x} }
+
+// blockShadowHistory: a top-level block (if / for / range / switch / nested if) declares a variable with
+// the name of a live global — it gets a global slot of its own with the same name — and changes another
+// global; pieces after the block read and change the outer variable again.
+func blockShadowHistory(r *mon.Rand, k int) ([]piece, string) {
+	g, h := fmt.Sprintf("s%d", k%5), fmt.Sprintf("t%d", k%5)
+	a, b := int64(r.Range(1, 9)), int64(r.Range(10, 19))
+	stmts := []gen.Stmt{decl(g, lit(a)), decl(h, lit(b))}
+	if r.Bool() {
+		stmts = append(stmts, &gen.FuncDecl{F: fn("rd", nil, ret(bin("+", id(g), id(h))))})
+	}
+	form := mon.Pick(r, []string{"if", "for-three", "for-range", "switch", "nested-if", "if-else"})
+	body := []gen.Stmt{decl(g, bin("+", id(g), lit(100))), assign(h, "=", bin("+", id(g), lit(1)))}
+	if r.Bool() {
+		body = []gen.Stmt{decl(g, lit(int64(r.Range(200, 299)))), assign(h, "+=", id(g)), assign(g, "=", bin("*", id(g), lit(2)))}
+	}
+	switch form {
+	case "if":
+		stmts = append(stmts, es(&gen.IfExpr{Cond: &gen.BoolLit{V: true}, Then: body}))
+	case "if-else":
+		stmts = append(stmts, es(&gen.IfExpr{Cond: bin(">", id(g), lit(100)), Then: []gen.Stmt{assign(h, "=", lit(0))}, Else: body, HasElse: true}))
+	case "nested-if":
+		inner := es(&gen.IfExpr{Cond: &gen.BoolLit{V: true}, Then: []gen.Stmt{decl(g, lit(7000)), assign(h, "+=", id(g))}})
+		stmts = append(stmts, es(&gen.IfExpr{Cond: &gen.BoolLit{V: true}, Then: append(append([]gen.Stmt{}, body...), inner)}))
+	case "for-three":
+		stmts = append(stmts, &gen.For{Kind: "three", Init: decl("i", lit(0)), Cond: bin("<", id("i"), lit(2)), Post: &gen.IncDec{Name: "i", Op: "++"}, Body: body})
+	case "for-range":
+		stmts = append(stmts, &gen.For{Kind: "range1", K: "rk", Iter: &gen.ListLit{Items: []gen.Expr{lit(5), lit(6)}}, Body: body})
+	case "switch":
+		stmts = append(stmts, es(&gen.SwitchExpr{Subject: lit(1), Cases: []gen.SwitchCase{{Values: []gen.Expr{lit(1)}, Body: body}, {Default: true, Body: []gen.Stmt{assign(h, "=", lit(-1))}}}}))
+	}
+	stmts = append(stmts, es(id(g)), es(id(h)))
+	rounds := r.Range(1, 3)
+	for i := 0; i < rounds; i++ {
+		switch r.Intn(4) {
+		case 0:
+			stmts = append(stmts, assign(g, "=", bin("+", id(g), lit(1))))
+		case 1:
+			stmts = append(stmts, assign(g, "+=", id(h)))
+		case 2:
+			stmts = append(stmts, &gen.IncDec{Name: g, Op: "++"})
+		default:
+			stmts = append(stmts, assign(h, "=", bin("-", id(h), id(g))))
+		}
+		stmts = append(stmts, es(&gen.ListLit{Items: []gen.Expr{id(g), id(h)}}))
+	}
+	if _, ok := stmts[2].(*gen.FuncDecl); ok {
+		stmts = append(stmts, es(call(id("rd"))))
+	}
+	return cutPieces(r, stmts, false), fmt.Sprintf("block-shadow:%s:rounds=%d", form, rounds)
+}
+
+// forwardRefHistory: one piece declares functions that refer forward to each other (legal within a piece);
+// the piece before it is rejected — at top level or inside a function body — or accepted.
+func forwardRefHistory(r *mon.Rand, k int) ([]piece, string) {
+	n := int64(r.Range(3, 9))
+	even := fn("isEven", []string{"n"}, es(&gen.IfExpr{Cond: bin("==", id("n"), lit(0)), Then: []gen.Stmt{ret(&gen.BoolLit{V: true})}}), ret(call(id("isOdd"), bin("-", id("n"), lit(1)))))
+	odd := fn("isOdd", []string{"n"}, es(&gen.IfExpr{Cond: bin("==", id("n"), lit(0)), Then: []gen.Stmt{ret(&gen.BoolLit{V: false})}}), ret(call(id("isEven"), bin("-", id("n"), lit(1)))))
+	var pieces []piece
+	pieces = append(pieces, piece{Stmts: []gen.Stmt{decl("q", lit(n))}})
+	before := mon.Pick(r, []string{"undefined-in-func", "undefined-in-func", "undefined", "syntax", "const-incdec", "none"})
+	if before != "none" {
+		pieces = append(pieces, rejectPiece(before, r.Intn(1000), nil, nil))
+	}
+	third := fn("useBoth", nil, ret(&gen.ListLit{Items: []gen.Expr{call(id("isEven"), id("q")), call(id("isOdd"), id("q"))}}))
+	decls := []gen.Stmt{&gen.FuncDecl{F: even}, &gen.FuncDecl{F: odd}}
+	if r.Bool() {
+		decls = []gen.Stmt{&gen.FuncDecl{F: third}, &gen.FuncDecl{F: even}, &gen.FuncDecl{F: odd}}
+	}
+	if r.Bool() {
+		decls = append(decls, es(call(id("isEven"), id("q"))))
+	}
+	pieces = append(pieces, piece{Stmts: decls})
+	pieces = append(pieces, piece{Stmts: []gen.Stmt{es(call(id("isOdd"), id("q")))}})
+	if len(decls) >= 3 {
+		if _, ok := decls[0].(*gen.FuncDecl); ok && decls[0].(*gen.FuncDecl).F == third {
+			pieces = append(pieces, piece{Stmts: []gen.Stmt{es(call(id("useBoth")))}})
+		}
+	}
+	return pieces, fmt.Sprintf("forward-ref-in-piece:after=%s:decls=%d", before, len(decls))
+}
+
 func nestedHistory(r *mon.Rand, k int) ([]piece, string) {
+	switch k % 8 {
+	case 3, 7:
+		return blockShadowHistory(r, k)
+	case 5:
+		return forwardRefHistory(r, k)
+	}
 	g := fmt.Sprintf("g%d", k%7)
 	var stmts []gen.Stmt
 	hostG := r.Chance(1, 4)
